@@ -790,6 +790,7 @@ class Lab:
         self.ex = ThreadPoolExecutor(max_workers=MAX_PROCS)      # one slot per worker subprocess
         self.orch = ThreadPoolExecutor(max_workers=48)           # threads that only wait for subprocesses
         self.fresh_cache = {}
+        self.reported = set()
         self.n = 0
 
     def session(self, h, threads, tag, write_snaps=True):
@@ -827,6 +828,9 @@ def seed_of(spec):
     return s if isinstance(s, int) else 0
 
 
+DASK_KEY = re.compile(r"^[A-Za-z_][\w.]*-[0-9a-f]{32}$")
+
+
 def diff_canon(a, b):
     if a == b:
         return None
@@ -836,6 +840,27 @@ def diff_canon(a, b):
                 d = diff_canon(a.get(k), b.get(k))
                 return f"{k}: {d}" if d else f"{k}"
     return f"{json.dumps(a, default=str)[:140]} != {json.dumps(b, default=str)[:140]}"
+
+
+def strip_dask_names(c):
+    """the same canon with every name that is a dask graph key (`func-<32 hex>`) replaced by a constant"""
+    if isinstance(c, dict):
+        return {k: ("<dask-key>" if k == "name" and isinstance(v, str) and DASK_KEY.match(v) else strip_dask_names(v))
+                for k, v in c.items()}
+    if isinstance(c, list):
+        return [strip_dask_names(x) for x in c]
+    return c
+
+
+def classify_diff(got, fr):
+    """None | ('history', what) | ('dask-key-name', what): a result whose only difference is that its
+    `.name` is a (different) dask graph key is its own finding class, so it cannot mask a value difference"""
+    d = diff_canon(got, fr)
+    if d is None:
+        return None
+    if diff_canon(strip_dask_names(got), strip_dask_names(fr)) is None:
+        return ("dask-key-name", "only the result's .name differs, and it is a dask graph key: " + d)
+    return ("history", d)
 
 
 def check_history(lab, h, tag, configs, stream="history"):
@@ -864,18 +889,19 @@ def check_history(lab, h, tag, configs, stream="history"):
             r.case(key, desc=dict(fn=rec["fn"], kw=spec["kw"], pos=i, threads=t) if i == 1 and t == configs[0] else None,
                    nontrivial=(i > 0), tags=[f"fn:{rec['fn']}", f"threads:{t}", "status:" + ("ok" if "ok" in fr else fr.get("err", "?")),
                                              "pos:" + ("0" if i == 0 else "1-5" if i < 6 else "6-20" if i < 21 else "21+")])
-            d = diff_canon(got, fr)
+            d = classify_diff(got, fr)
             if d:
-                fails.append(dict(kind="history", fn=rec["fn"], i=i, threads=t, what=d))
+                fails.append(dict(kind=d[0], fn=rec["fn"], i=i, threads=t, what=d[1]))
     # ---- a repeated call repeats its result (when its argument snapshot is the same)
     seen = {}
     for rec in subj:
         k = h_bytes(open(rec["snap"], "rb").read())
         if k in seen:
             r.tag("repeated-calls")
-            d = diff_canon(results[configs[0]][seen[k]]["canon"], rec["canon"])
+            d = classify_diff(results[configs[0]][seen[k]]["canon"], rec["canon"])
             if d:
-                fails.append(dict(kind="repeat", fn=rec["fn"], i=rec["i"], threads=configs[0], what=f"call {seen[k]} repeated at {rec['i']}: {d}"))
+                fails.append(dict(kind="repeat" if d[0] == "history" else "dask-key-name", fn=rec["fn"], i=rec["i"], threads=configs[0],
+                                  repeat_of=seen[k], what=f"call {seen[k]} repeated at {rec['i']}: {d[1]}"))
         else:
             seen[k] = rec["i"]
     # ---- model vs code: the cells that really changed are cells the summary writes
@@ -919,15 +945,22 @@ def check_history(lab, h, tag, configs, stream="history"):
 
 
 def report(lab, h, tag, fails, configs):
+    """one finding per (kind, function); only the first of each class is shrunk (a shrink costs ~10 sessions)"""
     r = lab.r
     for f in fails:
         if f.get("soft"):
             continue
+        key = f"{f['kind']}:{f['fn']}"
         i = f["i"]
         case = dict(kind=f["kind"], index=i, threads=f["threads"], fn=f["fn"],
                     history=dict(history=h["history"][: i + 1], pool=h["pool"]))
-        case = shrink(lab, case)
-        r.fail(f"{f['kind']}:{f['fn']}", f"{f['fn']} (call {i} of the history, {f['threads']} thread(s)) differs from the same call "
+        if key not in lab.reported and len(lab.reported) < 3:
+            lab.reported.add(key)
+            case = shrink(lab, case)
+        elif key in lab.reported:
+            continue
+        lab.reported.add(key)
+        r.fail(key, f"{f['fn']} (call {i} of the history, {f['threads']} thread(s)) differs from the same call "
                f"in a fresh process: {f['what']}", case)
 
 
@@ -937,15 +970,17 @@ def still_fails(lab, case, tag):
     t = case["threads"]
     rec = lab.session(h, t, tag).result()
     last = rec[-1]
-    if case["kind"] == "repeat":
-        k = h_bytes(open(last["snap"], "rb").read())
-        for e in rec[:-1]:
-            if not e.get("perturber") and e["fn"] == last["fn"] and h_bytes(open(e["snap"], "rb").read()) == k \
-                    and diff_canon(e["canon"], last["canon"]):
+    want = "dask-key-name" if case["kind"] == "dask-key-name" else "history"
+    k = h_bytes(open(last["snap"], "rb").read())
+    for e in rec[:-1]:      # an identical earlier call must have given the identical result
+        if not e.get("perturber") and e["fn"] == last["fn"] and h_bytes(open(e["snap"], "rb").read()) == k:
+            d = classify_diff(e["canon"], last["canon"])
+            if d and d[0] == want:
                 return True
+    if case["kind"] == "repeat":
         return False
-    fr = lab.fresh(last["snap"]).result()["canon"]
-    return diff_canon(last["canon"], fr) is not None
+    d = classify_diff(last["canon"], lab.fresh(last["snap"]).result()["canon"])
+    return bool(d) and d[0] == want
 
 
 def shrink(lab, case):
@@ -1058,9 +1093,15 @@ def run(r, budget=None, focus=None):
     lab = Lab(r)
     try:
         tier = r.tier
-        n_hist, max_len, configs = {"quick": (3, 12, THREAD_CONFIGS), "thorough": (8, 60, THREAD_CONFIGS)}[tier]
+        n_hist, max_len, configs = {"quick": (2, 12, THREAD_CONFIGS), "thorough": (6, 60, THREAD_CONFIGS)}[tier]
         if budget:
             n_hist, max_len = budget
+
+        def configs_for(k):
+            """every run covers 1, 2, 4 and 16 threads; later histories alternate the middle ones (a session costs a full JIT)"""
+            if k == 0 or (tier == "thorough" and k < 3):
+                return list(THREAD_CONFIGS)
+            return [1, 16] + ([2] if k % 2 else [4]) * (tier == "thorough")
         r.rule = ("history = random sequence of public calls (families proximity/focal/zonal/generators/classify/surface/spectral/"
                   "path/polygonize/local/viewshed; 22% perturbers bump / user np.random; 12% verbatim repeats; 30% caller scribbles "
                   "over results and lists; rasters 5..12 cells wide (24..48 for some focal), float/int dtypes, NaN cells, numpy or dask "
@@ -1083,7 +1124,7 @@ def run(r, budget=None, focus=None):
                     r.fail(f"{c['kind']}:{c['fn']}", "corpus case still fails", c)
         generator_oracle(r, {"quick": 6, "thorough": 30}[tier])
         hs = [gen_history(r.rng, max_len, focus=focus, allow_viewshed=(tier == "thorough" or k == 0)) for k in range(n_hist)]
-        futs = [lab.orch.submit(check_history, lab, h, f"h{k}-{lab.n}", configs) for k, h in enumerate(hs)]
+        futs = [lab.orch.submit(check_history, lab, h, f"h{k}-{lab.n}", configs_for(k)) for k, h in enumerate(hs)]
         for k, (h, f) in enumerate(zip(hs, futs)):
             fails = f.result()
             r.tag("histories")
